@@ -131,15 +131,16 @@ def generate(ctx):
              "train_update": rng.random() < 0.8, "eval_update": rng.random() < 0.8, "pre": rng.random() < 0.4,
              "shape": [rng.randint(1, 4), rng.randint(1, 5)], "nops": rng.randint(3, 10)}
         if which == "clamp":
-            lo = rng.choice([None, -1.0, 0.0, 0.25, -3, -2.5])
-            hi = rng.choice([None, 1.0, 0.5, 2, 10.0, 0.0, 0, -0.5])
+            lo = rng.choice([None, -1.0, 0.0, 0.25, -3, -2.5, round(rng.uniform(-4.0, 3.0), 3)])
+            hi = rng.choice([None, 1.0, 0.5, 2, 10.0, 0.0, 0, -0.5, round(rng.uniform(-3.0, 4.0), 3)])
             if lo is None and hi is None:
                 hi = 0.5
             if lo is not None and hi is not None and hi <= lo:
                 hi = lo + 1
             d.update({"min": lo, "max": hi})
         else:
-            d.update({"order": rng.choice([1, 2, 0.5, 3, float("inf")]), "scale": rng.choice([1.0, 2.5, -1.0, -0.3, 10]),
+            d.update({"order": rng.choice([1, 2, 0.5, 3, float("inf"), round(rng.uniform(0.6, 4.0), 2)]),
+                      "scale": rng.choice([1.0, 2.5, -1.0, -0.3, 10, round(rng.choice([-1, 1]) * rng.uniform(0.05, 5.0), 3)]),     # documented: nonzero
                       "dim": rng.choice([None, 0, 1, -1, [0, 1]]), "zero_row": rng.random() < 0.4,
                       # epsilon only guards the division for (near-)zero vectors: every vector drawn here is either exactly
                       # zero or has a norm far above it, so the post-condition is the same for all of these
